@@ -442,6 +442,7 @@ func cmdCheck(mode string, args []string) {
 	if *selftest {
 		fmt.Printf("SELFTEST-RESULT property=%s violations=%d\n", *prop, violations)
 		if violations > 0 {
+			r.close()
 			os.Exit(1)
 		}
 		return
@@ -457,6 +458,7 @@ func cmdCheck(mode string, args []string) {
 	fmt.Printf("property %s: %d/%d claimed obligations discharged, %d unclaimed, %d new-undecided, %d new-refuted, %.1fs\n",
 		*prop, discharged, nLocked, len(unclaimed), len(undecidedNew), len(refutedNew), time.Since(t0).Seconds())
 	if violations > 0 {
+		r.close()
 		os.Exit(1)
 	}
 }
